@@ -331,8 +331,21 @@ def rule_include(ctx, res):
         sink_nodes = cfg.nodes_of(call)
         verdicts = []
         dom_guard = None
+        # plain copies of the subject (x = y) carry the same value
+        aliases = {subject}
+        changed = True
+        while changed:
+            changed = False
+            for nm in list(aliases):
+                for (_s, v) in assignments_to(f.node, nm):
+                    if isinstance(v, ast.Name) and v.id not in aliases and \
+                            len(assignments_to(f.node, nm)) == 1:
+                        aliases.add(v.id)
+                        changed = True
         for (g, fail, ok) in guards:
-            cls = classify_containment(model, f, g.ast, subject, roots)
+            cls = None
+            for al in sorted(aliases):
+                cls = cls or classify_containment(model, f, g.ast, al, roots)
             if cls is None:
                 continue
             # polarity: the failing (raising) branch is the one where the
@@ -354,13 +367,15 @@ def rule_include(ctx, res):
                   'dominated by a raising containment test of {} against '
                   '{}'.format(subject, sorted(roots)), loc)
         # R-C12-norm: normalised before the test, not re-assigned after it
-        norm = is_normalised(model, f, subject)
+        norm = any(is_normalised(model, f, al) for al in aliases)
         res.check(norm, 'R-C12-norm', qual, subject + ' normalised',
                   'tested path is abspath/normpath-normalised before the test',
                   'tested path is not normalised before the containment '
                   'test: "dir/../.." survives a prefix test', loc)
         reassigned = False
         for (st, _v) in assignments_to(f.node, subject):
+            if isinstance(_v, ast.Name) and _v.id in aliases:
+                continue          # a plain copy of the validated value
             for an in cfg.nodes_of(st):
                 if dom_guard is not None and not cfg.dominates(an, dom_guard):
                     # assignment not before the guard: is it between?
@@ -499,34 +514,46 @@ def rule_require(ctx, res):
             for t in n.targets:
                 if isinstance(t, ast.Name):
                     views.add(t.id)
+    from ..predlang import pred_lang, NotAPredicate
+    from ..lang import Lang
+    ALL = Lang.all_strings()
+    unsafe = ALL.concat(Lang.literal(b'./')).concat(ALL).union(
+        Lang.literal(b'/').concat(ALL))
     for (call, arg, what) in sinks:
         inst = '{}({})'.format(what, unparse(arg, 40))
         loc = f.module.loc(call)
         sink_nodes = cfg.nodes_of(call)
-        have = {'dotslash': False, 'absolute': False}
+        # language of the require strings that can reach the sink: those no
+        # dominating raising guard rejects
+        passing = ALL
+        n_guards = 0
         for (g, fail, ok) in guards:
-            if fail != 'true':
+            if not all(cfg.dominates(g, s_) for s_ in sink_nodes):
                 continue
-            if not all(cfg.dominates(g, s) for s in sink_nodes):
+            names = {x.id for x in walk_own(g.ast)
+                     if isinstance(x, ast.Name)}
+            if not (names & views):
                 continue
-            disj = g.ast.values if (isinstance(g.ast, ast.BoolOp) and
-                                    isinstance(g.ast.op, ast.Or)) else [g.ast]
-            for d in disj:
-                k = _filter_kind(d, views)
-                if k:
-                    have[k] = True
-        if have['dotslash'] and have['absolute']:
+            try:
+                rej = pred_lang(g.ast, views)
+            except NotAPredicate:
+                continue
+            if fail == 'false':
+                rej = rej.complement()
+            passing = passing.intersect(rej.complement())
+            n_guards += 1
+        w = passing.intersect(unsafe).witness()
+        if w is None:
             res.holds('R-C12-taint', qual, inst,
-                      'dominated by the raising filter: contains "./" or '
-                      'starts with "/"', loc)
+                      'every string that passes the raising filter ({} '
+                      'guard(s)) neither contains "./" nor starts with '
+                      '"/"'.format(n_guards), loc)
         else:
-            missing = [k for k, v in have.items() if not v]
             res.violation(
                 'R-C12-taint', qual, inst,
-                'require string reaches the file system without the '
-                'raising filter for: ' + ', '.join(missing) +
-                ' (a "../x" or "/abs" string selects a file outside the '
-                'load path)', loc)
+                'the require string {!r} passes every raising filter and '
+                'reaches the file system: it selects a file outside the '
+                'load path'.format(w), loc)
     res.require_min('R-C12-taint', 3)
 
 
@@ -611,9 +638,16 @@ def rule_locate(ctx, res):
                         ok = False
                         why.append('opaque binding of ' + nm)
                         continue
+                comp_targets = set()
+                for x in walk_own(v):
+                    if isinstance(x, ast.comprehension):
+                        for y in ast.walk(x.target):
+                            if isinstance(y, ast.Name):
+                                comp_targets.add(y.id)
                 for x in walk_own(v):
                     if isinstance(x, ast.Name):
-                        work.append(x.id)
+                        if x.id not in comp_targets:
+                            work.append(x.id)
                     elif isinstance(x, ast.Call):
                         ext = model.ext_name(f.module, x.func)
                         if ext is None and not isinstance(
